@@ -254,7 +254,13 @@ fn check_app(rep: &mut Report, case: u64, app: &AppDesc, policy: &Policy, rng: &
         }
         for (method, acrm, acrh, class) in reqs {
             rep.eval();
-            let mut hs = vec![("Host", "t"), ("Origin", "https://app.example.com")];
+            // who asks is not the server's business: the policy's headers are the same for the configured origin, for another site, for
+            // another spelling of the same site, for `null` and for no Origin at all (the browser does the comparing)
+            let (asked_by, asked_class) = *rng.pick(&[(Some("https://app.example.com"), "configured"), (Some("https://app.example.com"), "configured"), (Some("https://evil.example.net"), "another-site"),
+                (Some("HTTPS://APP.EXAMPLE.COM"), "upper-case"), (Some("https://app.example.com/"), "trailing-slash"), (Some("null"), "null"), (None, "absent")]);
+            rep.count(&format!("request_origin:{asked_class}"));
+            let mut hs = vec![("Host", "t")];
+            if let Some(o) = asked_by { hs.push(("Origin", o)) }
             if let Some(m) = &acrm { hs.push(("Access-Control-Request-Method", m.as_str())) }
             if let Some(h) = acrh { hs.push(("Access-Control-Request-Headers", h)) }
             let bytes = web::build_request(method, path, &hs, b"");
